@@ -1,17 +1,21 @@
-"""Fresh-interpreter half of the process-fresh reference of C09: reads a one-call history on
-stdin, executes it with the ordinary engine and prints the call's outputs."""
+"""Fresh-interpreter half of the process-fresh reference of C09: reads a universe and a list
+of (step, call) pairs on stdin, executes every call as a one-call history (fresh objects each)
+in the given order - the parent sends them reversed - and prints the outputs per step."""
 import json
 import sys
 
 
 def main():
-    hist = json.loads(sys.stdin.read())
+    job = json.loads(sys.stdin.read())
     from cidersim import boot
 
     boot.activate("plain")
     from cidersim.engines import history
 
-    out = history.run_case({"hist": hist, "child": True})
+    out = {}
+    for step, op in job["ops"]:
+        h = dict(job["hist"], ops=[op])
+        out[str(step)] = history.run_case({"hist": h, "child": True})
     sys.stdout.write("\n" + json.dumps(out) + "\n")
 
 
